@@ -126,7 +126,11 @@ macro "jpos_struct" : tactic =>
 
 /-- the simp set that evaluates both generated definitions one step; side conditions go to `omega` -/
 macro "jeq_simp" : tactic =>
-  `(tactic| simp (disch := omega) only [*, wrapI_eq, jrd_flat2, jrd_flat2', jrd_vec, jrd_dyn, rd1_ok, rd2_ok, rd3_ok, chkI_ok, ↓reduceIte,
+  `(tactic| first
+    | simp (disch := omega) only [*, wrapI_eq, jrd_flat2, jrd_flat2', jrd_vec, jrd_dyn, rd1_ok, rd2_ok, rd3_ok, chkI_ok, ↓reduceIte,
+      not_true_eq_false, not_false_eq_true, bind_ok, bind_error, pure_eq_ok, throw_eq_error, jbind_ok, jbind_error, jpure_eq_ok,
+      jthrow_eq_error, jtry_ok, jtry_iae, jtry_nf, decide_eq_true_eq, deq_real, jdiv_real, ddiv_real, jlog_real, dlog_real, ofInt_le_zero, ofInt_lt_zero, ofInt_le_zero', ofInt_lt_zero', zero_lit, eq_self_iff_true, ne_eq, withErr_empty, isFull_full, isFull_empty, isFull_null, withErr_null, kev_lit, kev_ne, avog_ne, mec2_ne, Bool.false_eq_true, propagateErr_full, setErr_null, setErr_empty, setErr_notFull (by assumption)]
+    | simp (disch := omega) only [*, wrapI_eq, jrd_flat2, jrd_flat2', jrd_vec, jrd_dyn, rd1_ok, rd2_ok, rd3_ok, chkI_ok, ↓reduceIte,
       not_true_eq_false, not_false_eq_true, bind_ok, bind_error, pure_eq_ok, throw_eq_error, jbind_ok, jbind_error, jpure_eq_ok,
       jthrow_eq_error, jtry_ok, jtry_iae, jtry_nf, decide_eq_true_eq, deq_real, jdiv_real, ddiv_real, jlog_real, dlog_real, ofInt_le_zero, ofInt_lt_zero, ofInt_le_zero', ofInt_lt_zero', zero_lit, eq_self_iff_true, ne_eq, withErr_empty, isFull_full, isFull_empty, isFull_null, withErr_null, kev_lit, kev_ne, avog_ne, mec2_ne, Bool.false_eq_true, propagateErr_full, setErr_null, setErr_empty])
 
@@ -138,14 +142,14 @@ macro "jeq_leaf" : tactic =>
     | (simp only [wrapI] at *; omega)
     | (exfalso; linarith)
     | (exfalso; exact absurd (le_antisymm (by assumption) (by assumption)) (by assumption))
-    | (with_reducible apply JRel.value_eq; first | norm_num | (norm_num; ring) | (field_simp; ring) | (simp_all; done)))
+    | ((with_reducible apply JRel.value_eq) <;> first | norm_num | (norm_num; ring) | (field_simp; ring) | (simp_all; done)))
 
 /-- positivity of a Java result: split the guards of the Java definition, close the leaves -/
 macro "jpos_auto" : tactic =>
   `(tactic| (
     (try jeq_simp)
     repeat' (first
-      | with_reducible exact JPos.error | with_reducible exact JPos.exp | (with_reducible apply JPos.of_pos; first | assumption | positivity | linarith)
+      | with_reducible exact JPos.error | with_reducible exact JPos.exp | ((with_reducible apply JPos.of_pos) <;> first | assumption | positivity | linarith)
       | (split_ifs <;> (try jeq_simp)))))
 
 /-- alternate between closing leaves and splitting the guards of the two generated definitions -/
